@@ -26,8 +26,9 @@ Definition images : list (nat * atom) :=
   let offs := offsets27 cell in
   combine (seq 0 (length offs * nS)) (flat_map (fun o => map (fun a => (fst a, vadd (snd a) o)) S) offs).
 
+(* cell_is_orthorhombic (after fix D17): diagonal matrix with a positive diagonal *)
 Definition is_ortho : bool := let '((a,b,c),(d,e,f),(g,h,i)) := cell in
-  (b=?0)&&(c=?0)&&(d=?0)&&(f=?0)&&(g=?0)&&(h=?0).
+  (b=?0)&&(c=?0)&&(d=?0)&&(f=?0)&&(g=?0)&&(h=?0)&&(0<?a)&&(0<?e)&&(0<?i).
 
 Definition near_ortho (p:vec) : bool := let '((Lx,_,_),(_,Ly,_),(_,_,Lz)) := cell in let '(x,y,z):=p in
   ge_neg_pl_b x Dmax tol && lt_L_pl_b x Lx Dmax tol && ge_neg_pl_b y Dmax tol && lt_L_pl_b y Ly Dmax tol &&
